@@ -109,7 +109,52 @@ func matchSet(cs []Cond, v int, err error) (must, may bool) {
 	return
 }
 
-func c12Case(conds []Cond, o outcome) string {
+// c12Pols holds one instance of every policy kind configured with the same conditions.
+type c12Pols struct {
+	conds []Cond
+	fb    fallback.Fallback[int]
+	rp    retrypolicy.RetryPolicy[int]
+	cbB   circuitbreaker.CircuitBreakerBuilder[int]
+	cb    circuitbreaker.CircuitBreaker[int]
+	abort retrypolicy.RetryPolicy[int]
+	hedge hedgepolicy.HedgePolicy[int]
+}
+
+func c12Build(conds []Cond) *c12Pols {
+	p := &c12Pols{conds: conds}
+	p.fb = applyHandle(fallback.BuilderWithResult[int](99), conds).Build()
+	p.rp = applyHandle(retrypolicy.Builder[int]().WithMaxRetries(1), conds).Build()
+	p.cbB = applyHandle(circuitbreaker.Builder[int]().WithFailureThreshold(100), conds)
+	p.cb = p.cbB.Build()
+	ab := retrypolicy.Builder[int]().WithMaxRetries(2).HandleIf(func(int, error) bool { return true })
+	hb := hedgepolicy.BuilderWithDelay[int](50 * time.Nanosecond)
+	for _, c := range conds {
+		switch c.K {
+		case "errs":
+			ab = ab.AbortOnErrors(append([]error{c.E}, c.Es...)...)
+			hb = hb.CancelOnErrors(append([]error{c.E}, c.Es...)...)
+		case "types":
+			ab = ab.AbortOnErrorTypes(append([]any{c.T}, c.Ts...)...)
+			hb = hb.CancelOnErrorTypes(append([]any{c.T}, c.Ts...)...)
+		case "result":
+			ab = ab.AbortOnResult(c.V)
+			hb = hb.CancelOnResult(c.V)
+		default:
+			ab = ab.AbortIf(c.F)
+			hb = hb.CancelIf(c.F)
+		}
+	}
+	p.abort, p.hedge = ab.Build(), hb.Build()
+	return p
+}
+
+// c12Case classifies one outcome with freshly built policies.
+func c12Case(conds []Cond, o outcome) string { return c12Build(conds).check(o) }
+
+// check runs outcome o through every policy of p (which may have classified other outcomes before)
+// and compares each verdict with the documented rules.
+func (p *c12Pols) check(o outcome) string {
+	conds := p.conds
 	desc := func(policy string) string {
 		return fmt.Sprintf("%s with conditions [%s] on outcome %s", policy, condStr(conds), o.name)
 	}
@@ -117,9 +162,7 @@ func c12Case(conds []Cond, o outcome) string {
 	fn := func() (int, error) { return o.v, o.err }
 	// fallback: applied iff failure
 	{
-		b := fallback.BuilderWithResult[int](99)
-		b = applyHandle(b, conds)
-		v, err := failsafe.Get(fn, b.Build())
+		v, err := failsafe.Get(fn, p.fb)
 		applied := v == 99 && err == nil
 		if applied != wantFail {
 			return fmt.Sprintf("%s: fallback applied=%v, the documented rules classify it as failure=%v", desc("fallback"), applied, wantFail)
@@ -130,53 +173,36 @@ func c12Case(conds []Cond, o outcome) string {
 	}
 	// retry policy: retried iff failure
 	{
-		b := retrypolicy.Builder[int]().WithMaxRetries(1)
-		b = applyHandle(b, conds)
 		n := 0
-		failsafe.Get(func() (int, error) { n++; return o.v, o.err }, b.Build())
+		failsafe.Get(func() (int, error) { n++; return o.v, o.err }, p.rp)
 		if (n == 2) != wantFail {
 			return fmt.Sprintf("%s: function invoked %d times, failure=%v by the documented rules", desc("retry policy"), n, wantFail)
 		}
 	}
 	// circuit breaker: through an execution and through RecordResult / RecordError
 	{
-		b := circuitbreaker.Builder[int]().WithFailureThreshold(10)
-		b = applyHandle(b, conds)
-		cb := b.Build()
-		failsafe.Get(fn, cb)
-		if got := cb.Metrics().Failures() == 1; got != wantFail {
+		before := p.cb.Metrics().Failures()
+		failsafe.Get(fn, p.cb)
+		if got := p.cb.Metrics().Failures() == before+1; got != wantFail {
 			return fmt.Sprintf("%s: breaker recorded failure=%v after an execution, documented rules say %v", desc("circuit breaker"), got, wantFail)
 		}
-		cb2 := b.Build()
+		before = p.cb.Metrics().Failures()
 		if o.err == nil {
-			cb2.RecordResult(o.v)
-			if got := cb2.Metrics().Failures() == 1; got != isFailure(conds, o.v, nil) {
+			p.cb.RecordResult(o.v)
+			if got := p.cb.Metrics().Failures() == before+1; got != isFailure(conds, o.v, nil) {
 				return fmt.Sprintf("%s: RecordResult recorded failure=%v, documented rules say %v", desc("circuit breaker"), got, isFailure(conds, o.v, nil))
 			}
 		} else if o.v == 0 {
-			cb2.RecordError(o.err)
-			if got := cb2.Metrics().Failures() == 1; got != wantFail {
+			p.cb.RecordError(o.err)
+			if got := p.cb.Metrics().Failures() == before+1; got != wantFail {
 				return fmt.Sprintf("%s: RecordError recorded failure=%v, documented rules say %v", desc("circuit breaker"), got, wantFail)
 			}
 		}
 	}
 	// retry abort conditions: every outcome is made a failure, an abort match stops after one invocation
 	{
-		b := retrypolicy.Builder[int]().WithMaxRetries(2).HandleIf(func(int, error) bool { return true })
-		for _, c := range conds {
-			switch c.K {
-			case "errs":
-				b = b.AbortOnErrors(append([]error{c.E}, c.Es...)...)
-			case "types":
-				b = b.AbortOnErrorTypes(append([]any{c.T}, c.Ts...)...)
-			case "result":
-				b = b.AbortOnResult(c.V)
-			default:
-				b = b.AbortIf(c.F)
-			}
-		}
 		n := 0
-		failsafe.Get(func() (int, error) { n++; return o.v, o.err }, b.Build())
+		failsafe.Get(func() (int, error) { n++; return o.v, o.err }, p.abort)
 		must, may := matchSet(conds, o.v, o.err)
 		aborted := n == 1
 		if n != 1 && n != 3 || (aborted && !may) || (!aborted && must) {
@@ -185,19 +211,6 @@ func c12Case(conds []Cond, o outcome) string {
 	}
 	// hedge cancel conditions: a matching first result is returned at once, otherwise the hedge runs
 	{
-		b := hedgepolicy.BuilderWithDelay[int](50 * time.Nanosecond)
-		for _, c := range conds {
-			switch c.K {
-			case "errs":
-				b = b.CancelOnErrors(append([]error{c.E}, c.Es...)...)
-			case "types":
-				b = b.CancelOnErrorTypes(append([]any{c.T}, c.Ts...)...)
-			case "result":
-				b = b.CancelOnResult(c.V)
-			default:
-				b = b.CancelIf(c.F)
-			}
-		}
 		n := 0
 		t0 := vrt.Elapsed()
 		failsafe.Get(func() (int, error) {
@@ -206,7 +219,7 @@ func c12Case(conds []Cond, o outcome) string {
 				return o.v, o.err
 			}
 			return 77, nil // never matches
-		}, b.Build())
+		}, p.hedge)
 		took := vrt.Elapsed() - t0
 		must, may := matchSet(conds, o.v, o.err)
 		if len(conds) == 0 {
@@ -218,6 +231,116 @@ func c12Case(conds []Cond, o outcome) string {
 		}
 	}
 	return ""
+}
+
+// c12History: the verdict on an outcome does not depend on what the same policy instances classified
+// before. For every ordered pair (first, second) the second outcome is classified by instances that
+// have already seen the first.
+func c12History(conds []Cond, first outcome, outs []outcome) string {
+	for _, second := range outs {
+		p := c12Build(conds)
+		if msg := p.check(first); msg != "" {
+			return msg
+		}
+		if msg := p.check(second); msg != "" {
+			return fmt.Sprintf("%s (the same policy instances had classified %s before)", msg, first.name)
+		}
+		if msg := p.check(first); msg != "" {
+			return fmt.Sprintf("%s (the same policy instances had classified %s and %s before)", msg, first.name, second.name)
+		}
+	}
+	return ""
+}
+
+// ---- deep equality on results that hold pointers ----
+
+type c12Box struct{ N int }
+type c12Holder struct {
+	P *int
+	S string
+}
+
+// c12Deep registers mk(0) as the result condition and runs freshly allocated mk(0) (deep-equal, never
+// identical) and mk(1) through every policy kind.
+func c12Deep[R any](typeName string, mk func(int) R) string {
+	for _, v := range []int{0, 1} {
+		want := v == 0
+		desc := fmt.Sprintf("result type %s, condition registered for a value deep-equal to the result=%v", typeName, want)
+		fn := func() (R, error) { return mk(v), nil }
+		{
+			n := 0
+			failsafe.Get(func() (R, error) { n++; return mk(v), nil }, retrypolicy.Builder[R]().WithMaxRetries(1).HandleResult(mk(0)).Build())
+			if (n == 2) != want {
+				return fmt.Sprintf("retry policy HandleResult, %s: function invoked %d times", desc, n)
+			}
+		}
+		{
+			cb := circuitbreaker.Builder[R]().WithFailureThreshold(10).HandleResult(mk(0)).Build()
+			failsafe.Get(fn, cb)
+			cb.RecordResult(mk(v))
+			if got := cb.Metrics().Failures(); (got == 2) != want || (got != 0 && got != 2) {
+				return fmt.Sprintf("circuit breaker HandleResult, %s: %d failures recorded after an execution and a RecordResult", desc, got)
+			}
+		}
+		{
+			applied := false
+			fb := fallback.BuilderWithFunc(func(failsafe.Execution[R]) (R, error) { applied = true; return mk(7), nil }).HandleResult(mk(0)).Build()
+			failsafe.Get(fn, fb)
+			if applied != want {
+				return fmt.Sprintf("fallback HandleResult, %s: fallback applied=%v", desc, applied)
+			}
+		}
+		{
+			n := 0
+			rp := retrypolicy.Builder[R]().WithMaxRetries(2).HandleIf(func(R, error) bool { return true }).AbortOnResult(mk(0)).Build()
+			failsafe.Get(func() (R, error) { n++; return mk(v), nil }, rp)
+			if (n == 1) != want || (n != 1 && n != 3) {
+				return fmt.Sprintf("retry policy AbortOnResult, %s: function invoked %d times", desc, n)
+			}
+		}
+		{
+			n := 0
+			t0 := vrt.Elapsed()
+			hp := hedgepolicy.BuilderWithDelay[R](50 * time.Nanosecond).CancelOnResult(mk(0)).Build()
+			failsafe.Get(func() (R, error) {
+				n++
+				if n == 1 {
+					return mk(v), nil
+				}
+				return mk(5), nil
+			}, hp)
+			if cancelled := vrt.Elapsed() == t0; cancelled != want {
+				return fmt.Sprintf("hedge CancelOnResult, %s: first result accepted at once=%v", desc, cancelled)
+			}
+		}
+	}
+	return ""
+}
+
+func c12DeepCases() []struct {
+	name string
+	run  func() string
+} {
+	type tc = struct {
+		name string
+		run  func() string
+	}
+	return []tc{
+		{"*struct", func() string { return c12Deep("*c12Box", func(v int) *c12Box { return &c12Box{v} }) }},
+		{"struct holding a pointer", func() string {
+			return c12Deep("c12Holder", func(v int) c12Holder { x := v; return c12Holder{&x, "s"} })
+		}},
+		{"any holding a pointer", func() string { return c12Deep("any(*c12Box)", func(v int) any { return &c12Box{v} }) }},
+		{"array of pointers", func() string {
+			return c12Deep("[2]*int", func(v int) [2]*int { a, b := v, 9; return [2]*int{&a, &b} })
+		}},
+		{"slice", func() string { return c12Deep("[]int", func(v int) []int { return []int{v, 2} }) }},
+		{"map", func() string {
+			return c12Deep("map[string]int", func(v int) map[string]int { return map[string]int{"k": v} })
+		}},
+		{"string", func() string { return c12Deep("string", func(v int) string { return fmt.Sprint("s", v) }) }},
+		{"struct of scalars", func() string { return c12Deep("c12Box", func(v int) c12Box { return c12Box{v} }) }},
+	}
 }
 
 func c12Units(tier string) []Unit {
@@ -261,6 +384,52 @@ func c12Units(tier string) []Unit {
 			}})
 		}
 	}
+	// histories: 18 outcomes (every error shape with result 0, plus the two error-free ones)
+	var hist []outcome
+	for _, o := range outs {
+		if o.v == 0 || o.err == nil {
+			hist = append(hist, o)
+		}
+	}
+	runCases := func(name string, n int, sample string, run func(i int) (string, string)) Unit {
+		return Unit{Name: name, Run: func(dl time.Time) *Stats {
+			st := &Stats{BoundCompleted: 0, outcomes: map[string]int{}}
+			for i := 0; i < n; i++ {
+				var scen, msg string
+				r := vrt.Execute(vrt.Options{}, func() { scen, msg = run(i) })
+				st.Executions++
+				st.Steps += r.Steps
+				if r.Panic != "" {
+					msg = "panic: " + r.Panic
+				}
+				if msg != "" {
+					v := Violation{Scenario: scen, Message: msg}
+					v.Sig = signature(v.Scenario, msg)
+					st.Violations = append(st.Violations, v)
+					if len(st.Violations) > 3 {
+						return st
+					}
+				}
+			}
+			st.Sample = []string{sample}
+			st.Outcomes, st.Nontrivial = st.Executions, st.Executions
+			return st
+		}}
+	}
+	for variant := 0; variant < 3; variant++ {
+		variant := variant
+		for i := 0; i < len(subsets); i += 5 {
+			part := subsets[i:min(i+5, len(subsets))]
+			us = append(us, runCases(fmt.Sprintf("C12/history, type-target-variant %d, ordered condition subsets %d..%d", variant, i, i+len(part)-1), len(part)*len(hist),
+				"first outcome x every second outcome on the same instances: "+strings.Join(outcomeNames(hist), " "), func(k int) (string, string) {
+					conds := c12Conds(part[k/len(hist)], variant)
+					return "C12/history/" + condStr(conds), c12History(conds, hist[k%len(hist)], hist)
+				}))
+		}
+	}
+	deep := c12DeepCases()
+	us = append(us, runCases("C12/deep equality of results holding pointers", len(deep), "result types: *struct, struct holding a pointer, any holding a pointer, array of pointers, slice, map, string, struct of scalars",
+		func(k int) (string, string) { return "C12/deep/" + deep[k].name, deep[k].run() }))
 	return us
 }
 
@@ -277,7 +446,7 @@ func init() {
 		Property:  "C12",
 		Technique: "exhaustive enumeration of the condition/outcome truth table, each cell executed on the real policies (fallback, retry, breaker, hedge) under the virtual runtime and compared with the documented rules",
 		Rule: "a case = an ordered subset of {HandleErrors, HandleErrorTypes, HandleResult, HandleIf} (all 65, three kinds of type target, single and multi-argument registrations) x an outcome from {0,1} x 16 error shapes (nil, sentinel, wrapped, joined, typed by value and by pointer, nested wrap/join, unrelated); " +
-			"the same registrations are exercised as AbortOn* and CancelOn*; observed only through the public API; distinct = distinct cases",
+			"the same registrations are exercised as AbortOn* and CancelOn*; histories: every ordered pair of 18 outcomes classified one after the other by the same policy instances (65 subsets x 3 type targets); result conditions on eight result types (pointers, structs/arrays/interfaces holding pointers, slices, maps) with deep-equal but not identical values; observed only through the public API; distinct = distinct cases",
 		Assume: []string{"errors.Is / errors.As / reflect.DeepEqual are the reference matchers", "a result condition on an outcome that carries an error: HandleResult must not match (documented); AbortOnResult / CancelOnResult: either reading accepted (not documented)"},
 		Units:  c12Units,
 	})
